@@ -5595,6 +5595,12 @@ class PyCdlib:
         self._check_new_paths(symlink_path, rr_symlink_name, joliet_path,
                               udf_symlink_path, False, True)
 
+        symlink_bytearray = bytearray()
+        if udf_target is not None:
+            # Generate the bytearry representing the UDF symlink; this refuses
+            # targets that cannot be recorded.
+            symlink_bytearray = udfmod.symlink_to_bytes(udf_target)
+
         # Checks complete, we can go on to make the symlink.
 
         num_bytes_to_add = 0
@@ -5640,9 +5646,6 @@ class PyCdlib:
             file_ident.new(False, False, udf_name, udf_parent)
             num_new_extents = udf_parent.add_file_ident_desc(file_ident, self.logical_block_size)
             num_bytes_to_add += num_new_extents * self.logical_block_size
-
-            # Generate the bytearry representing the symlink.
-            symlink_bytearray = udfmod.symlink_to_bytes(udf_target)
 
             file_entry = udfmod.UDFFileEntry()
             file_entry.new(len(symlink_bytearray), 'symlink', udf_parent,
